@@ -480,6 +480,44 @@ for mi in range(nhelp_mat):
             pass
         n_eval += 1
 
+# genuinely COMPLEX incident angles on the solid side (the refracted angles of a fluid incidence beyond a critical
+# angle, fed back to the solid -> fluid functions, as reverse_transmission_reflection_for_path does): the angles the
+# library computes by default must satisfy Snell's law and give the same coefficients as the explicit angles
+nchain = 6 if Q else 60
+for ci in range(nchain):
+    mat = mats[int(rng.integers(0, len(mats)))]
+    rho_f, v_f, rho_s, v_l, v_t = mat
+    if not (v_f < v_t < v_l):
+        continue
+    crit_l, crit_t = math.asin(v_f / v_l), math.asin(v_f / v_t)
+    a_f = np.concatenate([rng.uniform(crit_l * 1.02, min(crit_t * 0.98, math.radians(80)), 6),
+                          rng.uniform(min(crit_t * 1.02, math.radians(80)), math.radians(84), 6)]).astype(complex)
+    a_l = model.snell_angles(a_f, v_f, v_l)          # complex beyond the L critical angle
+    a_t = model.snell_angles(a_f, v_f, v_t)          # complex beyond the T critical angle
+    for fname, a_inc, c_inc, others in (("solid_l_fluid", a_l, v_l, ((0, v_f), (2, v_t))), ("solid_t_fluid", a_t, v_t, ((0, v_f), (1, v_l)))):
+        given = [a_f, a_l, a_t]
+        auto = call_impl(fname, given, mat, explicit=False)
+        expl = call_impl(fname, given, mat, explicit=True)
+        chk.count(complex_incident_angle=fname)
+        n_eval += len(a_f)
+        for k_, c_r in others:
+            got_angle = model.snell_angles(a_inc, c_inc, c_r)
+            r = np.abs(np.sin(got_angle) * c_inc - c_r * np.sin(a_inc)) / c_r
+            for i in np.nonzero(~(r <= 1e-9))[0][:2]:
+                report(f"snell-complex:{fname}", "Snell's law violated by snell_angles for a complex incident angle",
+                       dict(function="snell_angles", incident_angle=complex(a_inc[i]), c_incident=c_inc, c_refracted=c_r,
+                            angle=complex(got_angle[i]), residual=float(r[i]), predicate="snell_law", material=mat), True)
+        sc_ = max(1.0, float(np.max(np.abs(np.asarray(expl)))))
+        cnd = cond_of(given, mat)
+        for j_, (ca, ce) in enumerate(zip(auto, expl)):
+            d_ = np.abs(np.asarray(ca) - np.asarray(ce))
+            for i in np.nonzero(~(d_ <= 1e-8 * sc_ * cnd))[0][:2]:
+                report(f"auto-complex:{fname}", f"{fname} with library-computed refracted angles differs from the same call with the "
+                       "Snell-consistent angles given explicitly (complex incident angle)",
+                       dict(function=fname, incident_angle=complex(a_inc[i]), fluid_angle=complex(a_f[i]), material=mat,
+                            coefficient_index=j_, auto=complex(np.asarray(ca)[i]), explicit=complex(np.asarray(ce)[i]),
+                            predicate="default refracted angles = Snell"), True)
+
 # large angle arrays (every ray of a big TFM grid in one call): the helper is a pointwise function of the
 # angle, so the answer for each entry of a large array is the selected coefficient for that entry
 nlarge = 2 if Q else 12
@@ -495,14 +533,19 @@ for li in range(nlarge):
     fc = bool(rng.integers(0, 2))
     shape = (int(rng.integers(3, 130)), int(rng.integers(1500, 5000))) if li % 2 == 0 else (int(rng.integers(2 ** 17 + 1, 2 ** 19)),)
     big = rng.uniform(0.0, 0.3, size=shape)        # below every critical angle of the generated materials? not needed: compared pointwise
+    if len(shape) == 2 and li % 4 == 0:
+        big = np.asfortranarray(big)               # memory layout is not part of the request
+    elif len(shape) == 2 and li % 4 == 2:
+        big = np.ascontiguousarray(big.T).T        # a transposed view
     m_inc, m_oth = (fluid, solid) if kind == "fs" else (solid, fluid)
     kw = dict(interface_kind=KINDS[kind], material_inc=m_inc, mode_inc=MODES[m_in], mode_out=MODES[m_out],
-              angles_inc=big.copy(), force_complex=fc, unit=unit)
+              angles_inc=big.copy(order="K"), force_complex=fc, unit=unit)
     got = (model.transmission_at_interface(material_out=m_oth, **kw) if helper == "tr"
            else model.reflection_at_interface(material_against=m_oth, **kw))
     got = np.asarray(got)
-    want = expected_helper(helper, kind, m_in, m_out, unit, big.astype(complex) if fc else big, mat)
-    chk.count(large_array=f"{len(shape)}-d")
+    flat = np.ascontiguousarray(big).reshape(-1)
+    want = expected_helper(helper, kind, m_in, m_out, unit, flat.astype(complex) if fc else flat, mat).reshape(big.shape)
+    chk.count(large_array=f"{len(shape)}-d" + ("" if big.flags.c_contiguous else " (not C-contiguous)"))
     n_eval += big.size
     okb = got.shape == big.shape
     if okb:
